@@ -513,6 +513,35 @@ impl TcpConnection {
         })
     }
 
+    /// Verification hook: run [`TcpConnection::negotiate_connection`] (multistream-select,
+    /// Noise handshake, dialed-peer comparison, yamux negotiation) on an established TCP stream
+    /// and report the authenticated peer. Adds code only.
+    #[cfg(feature = "verif")]
+    pub async fn verif_negotiate_connection(
+        stream: TcpStream,
+        dialed_peer: Option<PeerId>,
+        keypair: Keypair,
+        role: Role,
+        timeout: Duration,
+    ) -> Result<PeerId, NegotiationError> {
+        let address = stream.peer_addr().map_err(|error| NegotiationError::IoError(error.kind()))?;
+
+        Self::negotiate_connection(
+            stream,
+            dialed_peer,
+            ConnectionId::from(0usize),
+            keypair,
+            role,
+            AddressType::Socket(address),
+            Default::default(),
+            noise::MAX_READ_AHEAD_FACTOR,
+            noise::MAX_WRITE_BUFFER_SIZE,
+            timeout,
+        )
+        .await
+        .map(|connection| connection.peer)
+    }
+
     /// Handles the yamux substream.
     ///
     /// Returns `true` if the connection handler should exit.
